@@ -16,6 +16,20 @@ CHECKS = {
         "Trusted: the renderers (skeleton -> source) and the reference depth function; depth is read from the violation message. Shapes whose depth the documentation leaves ambiguous (Python match/case, TS else-if chains, nested function definitions) are outside the alphabet.",
         "DESIGN.md section 3 / C01",
     ),
+    "C14": (
+        "model_checking",
+        "exhaustive enumeration of small directory trees x targets x ignore-pattern forms; one real CLI run each; set-equality against a reference model plus relational edges between runs",
+        "All directory trees up to the stated entry bound over an alphabet containing every always-excluded directory name and compiled extension, x every target (root recursive/non-recursive, each sub-directory, each file named explicitly) x every documented ignore-pattern form x carrier, each executed through the real `thailint file-placement` command with a deny-everything rule so that reported files = linted files; compared in both directions with the reference model.",
+        "Trusted: the tree generator, the gitignore-style reference semantics for the documented pattern forms. Pattern/position combinations the documentation leaves open are not judged. cwd is the project root (path spelling is C09).",
+        "DESIGN.md section 3 / C14",
+    ),
+    "C18": (
+        "model_checking",
+        "exhaustive enumeration of allow/deny rule sets over a small prefix/regex alphabet x all paths of a fixed tree; real CLI per rule set; per-file comparison with a reference model; carrier/spelling edges; invalid regex in every position",
+        "Every rule set over directory prefixes {src, src/api, tests} x allow/deny subsets x global_deny/global_patterns variants is run through the real `thailint file-placement` command against every path of a fixed tree and compared per file with a reference model written from the statement; the same rule set through every carrier (--config yaml/json, --rules, auto-discovered file, absolute target) and entry spelling must give the same verdicts; an invalid regex in every position must exit 2.",
+        "Trusted: the reference model. Global rules hitting a file that is covered by (and satisfies) a directory rule are outside the alphabet because the documentation is contradictory about them (DESIGN C18). Patterns and paths are lower case.",
+        "DESIGN.md section 3 / C18",
+    ),
 }
 
 NOT_APPLICABLE: dict[str, str] = {}
